@@ -841,6 +841,10 @@ func init() {
 			for v := 0; v < *variants; v++ {
 				lines = append(lines, fmt.Sprintf("S %d.%c", i, 'a'+v))
 				for _, l := range sc {
+					if l == "E commitfail" {
+						// whether the fault can be injected depends on the I/O type: not an operation of a lock-step comparison
+						continue
+					}
 					if v > 0 && strings.HasPrefix(l, "E open ") {
 						l = "E open " + genCfg(r, o, h).String()
 					}
